@@ -632,9 +632,16 @@ namespace vh
       st_counter() = 0;
       steps() = 0;
       oob() = oob_record();
-      // exact-size heap copy, no terminator
-      char* buf = new char[ s.size() ? s.size() : 1 ];
+      // heap copy without terminator.  Default: the input is a window inside a larger buffer whose bytes BEHIND the
+      // logical end are adversarial (letters, digits, line endings, UTF-8 continuation bytes, brackets), so that a read
+      // through a raw pointer past the end changes the result instead of going unnoticed; with VH_NOTAIL (sanitizer
+      // runs) the buffer has exactly the size of the input so that ASan sees the over-read itself.
+      static const bool notail = std::getenv( "VH_NOTAIL" ) != nullptr;
+      static const char tail[] = "a\nb\r\xbf" "0c]=\n\x80" "1ab";
+      const std::size_t tl = notail ? 0 : ( sizeof( tail ) - 1 );
+      char* buf = new char[ s.size() + tl + 1 ];
       std::memcpy( buf, s.data(), s.size() );
+      std::memcpy( buf + s.size(), tail, tl );
       std::string res;
       std::string cur;
       {
